@@ -249,6 +249,9 @@ class CommandLineJob(Job):
 
             try:
                 pinfo = json.loads(self.pidpath.read_text())
+            except FileNotFoundError:
+                # The job ended (and removed the file) meanwhile
+                return None
             except json.JSONDecodeError:
                 # The scheduler died (or is still) writing the file: no
                 # information on the process
